@@ -5,8 +5,9 @@ Static Coq development (coq/theories/C12):
                 and of the angle dispatch chains of the engine;
   ModelTableau  the tableau update rules as boolean functions of the row-local bits;
   ModelExec     `.clifford`, `controlled_by`, acceptance test, apply_gate_clifford argument passing;
-  ModelMeasure  `_exponent/_rowsum/_determined_outcome/_random_outcome/M` (bit-exact, incl. the byte
-                packing of the numpy engine) next to the Aaronson-Gottesman reference;
+  ModelMeasure  `_exponent/_rowsum/_determined_outcome/_random_outcome/M`: M_real (engine as written,
+                proved equal to the Aaronson-Gottesman reference M_spec) and M_old (bit-exact model of
+                the engine before repair e7dd78371, incl. its byte packing: recognises a regression);
   Pauli, Proofs*, Props   Pauli operators on amplitude functions, `rule_ok_<Gate>` for every rule
                 (U P = P' U for every n, qubits, state), circuit-level stabiliser theorem, refuted
                 statements with their witnesses.
@@ -647,6 +648,18 @@ ROT2_RULES = ["CRX", "CRY", "CRZ"]
 CHAIN_TAC = ("repeat match goal with |- context [feq0 ?e] => destruct (feq0 e) end; vm_compute; reflexivity.")
 
 
+def crn_half():
+    """which flag the controlled rotations use in this tree: False = theta is tested with the pi/2 test of RX/RY/RZ
+    (the code as it is), True = theta/2 is tested (a repair that was tried and withdrawn: tests/test_gates_gates.py::test_cun
+    pins the old flag).  Selects the model variant clifford_at."""
+    from qibo import gates
+    return not gates.CRX(0, 1, np.pi / 2).clifford
+
+
+def HALF():
+    return cbool(crn_half())
+
+
 def report(run, key, what, replay, concrete=True):
     """run.find, once per key"""
     seen = run.notes.setdefault("reported_keys", [])
@@ -974,7 +987,7 @@ def catalogue_gates():
     import sys
     gg = sys.modules["qibo.gates.gates"]
     out = []
-    angles = [("pi/2", np.pi / 2), ("pi", np.pi), ("0.3", 0.3), ("1.0", 1.0), ("int0", 0), ("int3", 3)]
+    angles = [("pi/2", np.pi / 2), ("pi", np.pi), ("0.3", 0.3), ("1.0", 1.0), ("2.0", 2.0), ("int0", 0), ("int3", 3)]
     for name, cls in vars(gg).items():
         if not (inspect.isclass(cls) and issubclass(cls, Gate)) or name.startswith("_") or cls.__module__ != gg.__name__:
             continue
@@ -1023,9 +1036,9 @@ def sec_flags(run):
                 real_flag = bool(g.clifford)
                 if nc:
                     term = (f"match controlled_by {base_coq} {cnats(ctrl)} with Some g' => gate_eqb g' {real} "
-                            f"&& Bool.eqb (clifford g') {cbool(real_flag)} | None => false end")
+                            f"&& Bool.eqb (clifford_at {HALF()} g') {cbool(real_flag)} | None => false end")
                 else:
-                    term = f"Bool.eqb (clifford {real}) {cbool(real_flag)}"
+                    term = f"Bool.eqb (clifford_at {HALF()} {real}) {cbool(real_flag)}"
             except RuntimeError:
                 g, real_flag = None, None
                 term = f"match controlled_by {base_coq} {cnats(ctrl)} with Some _ => false | None => true end"
@@ -1076,9 +1089,10 @@ def sec_flags(run):
                        f"init_args={list(gg_.init_args)} to the engine, the control qubits are dropped and the bare gate is simulated "
                        f"(stabiliser state vs state vector: defect {d:.3f})",
                        {"kind": "controlled_flag", "gate": lab, "controls": nc, "nq": nq})
-            elif ang == "[1.0]":
-                report(run, f"flag_sound:{name}(1.0)", f"{name}(..., 1.0).clifford is True (1.0 % (pi/2) == 1.0 'is_integer'); accepted and "
-                       f"simulated as a Clifford gate (defect {d:.3f})", {"kind": "flag_semantics", "gate": lab, "controls": nc, "nq": nq})
+            elif ang in ("[1.0]", "[2.0]"):
+                v = ang[1:-1]
+                report(run, f"flag_sound:{name}({v})", f"{name}(..., {v}).clifford is True (the float test `x % (pi/2)` gives 1.0, which 'is_integer'); "
+                       f"accepted and simulated as a Clifford gate (defect {d:.3f})", {"kind": "flag_semantics", "gate": lab, "controls": nc, "nq": nq})
             elif name in ROT2 and ang == "[pi/2]":
                 report(run, f"cr_flag:{name}(pi/2)", f"{name}(c, t, pi/2).clifford is True but the operator is not Clifford; simulated as the "
                        f"identity (defect {d:.3f})", {"kind": "flag_semantics", "gate": lab, "controls": nc, "nq": nq})
@@ -1332,7 +1346,9 @@ def measure_terms(n, T, qs, sample, oracle):
         return f"match measure {rs} {det} {n} {tt} {q} {o} with Some (s, _) => lbeq s {s} | None => false end"
     inv = (f"tableau_ok {n} {tt} && match measure rowsum_ag determined_spec {n} {tt} {q} {o} with "
            f"Some (_, T') => tableau_ok {n} T' | None => false end")
-    return [t("rowsum_packed", "determined_real"), t("rowsum_ag", "determined_spec"),
+    # 0: engine before the repair (M_old)  1: engine as written now (M_real; = M_spec by theorem M_real_is_spec)
+    # 2, 3: hybrids that isolate the two historical defects  4: commutation relations before / after M_spec
+    return [t("rowsum_packed", "determined_real"), t("rowsum_bits", "determined_bits"),
             t("rowsum_ag", "determined_real"), t("rowsum_packed", "determined_spec"), inv]
 
 
@@ -1367,7 +1383,7 @@ def sec_circuits(run, rng):
         except RuntimeError as e:
             report(run, "circuits:generator", "generator produced a circuit the backend refuses: " + str(e), {"descs": descs}, concrete=False)
             continue
-        tab_items.append((f"tab{ci}", f"outcome_is (execute_circuit {n} {circuit_coq(c)}) {cmatrix(T)}"))
+        tab_items.append((f"tab{ci}", f"outcome_is (execute_circuit_at {HALF()} {n} {circuit_coq(c)}) {cmatrix(T)}"))
         # ---- tests against the state-vector backend
         psi = statevector(make_circuit(n, descs))
         d = stabiliser_defect(T, n, psi)
@@ -1452,21 +1468,21 @@ def sec_circuits(run, rng):
                    f"(n={n}, random draws {oracle}); mechanism: {mech}",
                    {"kind": "measure", "n": n, "descs": descs, "qubits": qs, "forced": oracle, "sample": sample})
     run.oblige(f"test:commutation relations (tableau_ok) hold for every final tableau of the backend and after the reference measurement "
-               f"M_spec ({len(metas)} cases; the theorem tableau_inv_rules covers the gate rules only)", n_inv == len(metas), "test")
+               f"M_spec ({len(metas)} cases; instances of tableau_inv_gate / tableau_inv_M)", n_inv == len(metas), "test")
     if n_inv != len(metas):
         report(run, "tableau_inv:measure", "tableau_ok fails on a real final tableau or after M_spec", {}, concrete=False)
-    run.notes["measurement"] = {"cases": len(metas), "engine == model of the engine as written": n_real,
-                                "engine == Aaronson-Gottesman reference": n_spec, "neither": n_neither, "born_probability_zero": n_zero}
-    if n_real == len(metas):
-        run.oblige(f"correspondence:engine.M == M_real (bit-exact model incl. byte packing) with recorded draws, {len(metas)} measurements", m_ok, "correspondence")
-        if n_spec < len(metas):
-            run.refuted += ["rowsum_ok (engine as written)", "determined_outcome_ok (engine as written)"]
-    elif n_spec == len(metas):
-        run.oblige(f"correspondence:engine.M == M_spec (Aaronson-Gottesman) with recorded draws, {len(metas)} measurements", m_ok, "correspondence")
-        run.notes["measurement_model"] = "the engine now agrees with the AG reference; the model of the packed-byte defect no longer applies"
+    run.notes["measurement"] = {"cases": len(metas), "engine == M_real (engine as written now; = Aaronson-Gottesman by M_real_is_spec)": n_spec,
+                                "engine == M_old (engine before repair e7dd78371)": n_real, "neither": n_neither, "born_probability_zero": n_zero}
+    if n_spec == len(metas):
+        run.oblige(f"correspondence:engine.M == M_real with recorded draws, {len(metas)} measurements (samples bit for bit)", m_ok, "correspondence")
+    elif n_real == len(metas):
+        run.oblige("correspondence:engine.M == M_real", False, "correspondence")
+        run.refuted += ["rowsum_ok (engine regressed to the packed-byte arithmetic)", "determined_outcome_ok (engine regressed to the XOR reduction)"]
+        report(run, "measure:regression", f"engine.M behaves like the engine before repair e7dd78371 (model M_old) on all {len(metas)} cases",
+               {"kind": "measure_regression"}, concrete=n_zero > 0)
     else:
-        run.oblige("correspondence:engine.M == model", False, "correspondence")
-        report(run, "measure:model", f"engine.M matches neither model consistently (real-model {n_real}, spec {n_spec} of {len(metas)})", {}, concrete=False)
+        run.oblige("correspondence:engine.M == M_real", False, "correspondence")
+        report(run, "measure:model", f"engine.M matches neither model consistently (M_real {n_spec}, M_old {n_real} of {len(metas)})", {}, concrete=False)
     # ---- public API: Clifford.samples() through sample_shots
     zero = 0
     for j in range(12 if quick else 60):
@@ -1533,7 +1549,7 @@ def sec_reject(run, rng):
             bad += 1
             report(run, f"reject:{type(g).__name__}", f"a circuit containing the non-Clifford gate {type(g).__name__}{g.parameters} on {g.qubits} "
                    f"was not refused with RuntimeError ({outcome})", {"kind": "reject", "n": n, "gate": gate_desc(g)})
-        items.append((f"rej{j}", f"is_rejected (execute_circuit {n} {circuit_coq(c)})"))
+        items.append((f"rej{j}", f"is_rejected (execute_circuit_at {HALF()} {n} {circuit_coq(c)})"))
     res, out = run.coq_bools("Reject.v", COQ_HEADER, items)
     ok = res is not None and all(res.values())
     run.oblige(f"correspondence:circuits with one non-Clifford gate are rejected by model and backend ({len(items)} circuits)", ok and bad == 0, "correspondence")
@@ -1544,8 +1560,10 @@ def sec_reject(run, rng):
 
 
 # ---------------------------------------------------------------- collapsing measurement inside a circuit (repeated execution)
-def sec_collapse(run):
-    """H(0); M(0, collapse=True); M(0): both results of a shot must agree (Born probability of (a, not a) is 0)"""
+def sec_collapse(run, rng):
+    """collapsing measurement: (1) H(0); M(0, collapse=True); M(0): both results of a shot must agree;
+    (2) exact: engine.M(packed, qubits, n, collapse=True) with recorded draws leaves exactly the tableau of the model
+    (M_real: sample and all 2n+1 rows incl. the scratch row, bit for bit)"""
     from qibo import Circuit, gates
     from qibo.backends import CliffordBackend
     b = CliffordBackend(engine="numpy")
@@ -1553,20 +1571,99 @@ def sec_collapse(run):
     c.add(gates.H(0))
     m1 = c.add(gates.M(0, collapse=True))
     c.add(gates.M(0))
+    broken = False
     try:
         res = b.execute_circuit(c, nshots=24)
         mid = np.array(m1.samples()).ravel()
         fin = np.asarray(res.samples()).ravel()
+        run.case(["collapse", mid.tolist(), fin.tolist()])
+        if len(mid) != len(fin) or (mid != fin).any():
+            broken = True
+            report(run, "collapse:H(0).M(0,collapse=True).M(0)",
+                   "Clifford backend: the collapsing mid-circuit measurement and the final measurement of the same qubit disagree within a shot "
+                   f"(mid={mid.tolist()[:12]}, final={fin.tolist()[:12]}): the collapsed tableau is not written back / wrong row count",
+                   {"kind": "collapse"})
+            run.refuted.append("collapse_ok (observed on the real code)")
     except Exception as e:
-        run.notes["collapse"] = f"collapsing measurement refused: {type(e).__name__}"
-        return
-    run.case(["collapse", mid.tolist(), fin.tolist()])
-    if len(mid) != len(fin) or (mid != fin).any():
-        report(run, "collapse:H(0).M(0,collapse=True).M(0)",
-               "Clifford backend: the collapsing mid-circuit measurement and the final measurement of the same qubit disagree within a shot "
-               f"(mid={mid.tolist()[:12]}, final={fin.tolist()[:12]}): engine.M(collapse=True) unpacks 2n instead of 2n+1 rows and never "
-               "writes the collapsed state back", {"kind": "collapse"})
-        run.refuted.append("collapse_ok (not modelled; observed on the real code)")
+        broken = True
+        report(run, "collapse:raises:H(0).M(0,collapse=True).M(0)", f"collapsing measurement raises {type(e).__name__}: {e}", {"kind": "collapse"})
+    run.oblige("test:H(0); M(0,collapse=True); M(0): mid-circuit and final result agree in every shot", not broken, "test")
+    # (2) exact correspondence of the state written back
+    eng = b.engine
+    a1, a2 = clifford_angles()
+    items, metas = [], []
+    for j in range(40 if run.tier == "quick" else 250):
+        n = rng.randint(1, 5 if run.tier == "quick" else 8)
+        descs = random_descs(rng, n, rng.randint(1, 5 * n + 2), a1, a2)
+        T, _ = real_tableau(b, make_circuit(n, descs))
+        qs = rng.sample(range(n), rng.randint(1, n))
+        packed = eng._clifford_pre_execution_reshape(T.copy())
+        log = []
+        saved = eng.np
+        eng.np = _NpProxy(log)
+        try:
+            sample = [int(v) for v in eng.M(packed, tuple(qs), n, True)]
+        except Exception as e:
+            eng.np = saved
+            report(run, "collapse:engine_raises", f"engine.M(collapse=True) raises {type(e).__name__}: {e}",
+                   {"kind": "collapse_exact", "n": n, "descs": descs, "qubits": qs}, concrete=True)
+            break
+        finally:
+            eng.np = saved
+        after = eng._clifford_post_execution_reshape(packed, n)
+        items.append((f"col{j}", f"match M_real {n} {ctableau(T, n)} {cnats(qs)} {cbools(log)} with "
+                                 f"Some (s, T') => lbeq s {cbools(sample)} && llbeq (tab_bits T') {cmatrix(after)} | None => false end"))
+        metas.append((n, descs, qs, log))
+    if items:
+        res_, out = run.coq_bools("Collapse.v", COQ_HEADER, items, timeout=900)
+        ok = res_ is not None and all(res_.values())
+        for m in metas:
+            run.case(["collapse_exact"] + list(m))
+        run.oblige(f"correspondence:engine.M(collapse=True) writes back exactly the tableau of M_real ({len(items)} cases, all 2n+1 rows)", ok, "correspondence")
+        if res_ is None:
+            run.find("collapse:compile", "collapse correspondence file does not compile", {"log": out[-800:]}, concrete=False)
+        elif not ok:
+            k = [i for i, (lab, _) in enumerate(items) if not res_[lab]][0]
+            n, descs, qs, log = metas[k]
+            report(run, "collapse:state", "the tableau left by engine.M(collapse=True) differs from the model (sample or collapsed state)",
+                   {"kind": "collapse_exact", "n": n, "descs": descs, "qubits": qs, "forced": log}, concrete=False)
+
+
+def sec_repeated(run):
+    """execute_circuit_repeated: the per-gate results of the final measurements (register_samples) against the state vector"""
+    from qibo import Circuit, gates
+    from qibo.backends import CliffordBackend, NumpyBackend
+    cases = [("X(0).M(1,collapse=True).M(1,0)", 2, [("X", [0])], [1], [[1, 0]]),
+             ("X(1).H(0).M(0,collapse=True).M(1)", 3, [("X", [1]), ("H", [0])], [0], [[1]]),
+             ("X(2).M(0,collapse=True).M(2).M(1)", 3, [("X", [2])], [0], [[2], [1]])]
+    crashes = []
+    for lab, n, gs, mid, finals in cases:
+        def mk():
+            c = Circuit(n)
+            for g, q in gs:
+                c.add(getattr(gates, g)(*q))
+            c.add(gates.M(*mid, collapse=True))
+            for f in finals:
+                c.add(gates.M(*f))
+            return c
+        c0 = mk()
+        NumpyBackend().execute_circuit(c0, nshots=8)
+        want = [np.asarray(m.result.samples()).tolist() for m in c0.measurements]
+        c1 = mk()
+        try:
+            CliffordBackend(engine="numpy").execute_circuit(c1, nshots=8)
+            got = [np.asarray(m.result.samples()).tolist() for m in c1.measurements]
+        except Exception as e:
+            crashes.append(f"{lab}: {type(e).__name__}: {str(e)[:80]}")
+            run.case(["repeated", lab, "raises"])
+            continue
+        run.case(["repeated", lab, got])
+        if got != want:     # the circuits are deterministic on the final registers
+            report(run, f"repeated:columns:{lab}", f"execute_circuit_repeated registers the samples of the final measurement gates by qubit id "
+                   f"instead of by position (samples[:, meas.target_qubits]): {lab} gives {got[0][:3]}..., state vector gives {want[0][:3]}...",
+                   {"kind": "repeated", "case": lab})
+    if crashes:
+        run.notes["repeated_execution_crash"] = crashes + ["(refusal by exception: same column indexing, IndexError when a qubit id exceeds the number of measured columns)"]
 
 
 # ---------------------------------------------------------------- stim engine
@@ -1714,7 +1811,8 @@ def main(run):
     sec_matrices(run)
     sec_circuits(run, rng)
     sec_reject(run, rng)
-    sec_collapse(run)
+    sec_collapse(run, rng)
+    sec_repeated(run)
     sec_stim(run, rng)
     sec_to_circuit(run, rng)
     run.notes.pop("reported_keys", None)
@@ -1740,12 +1838,14 @@ def sec_static(run):
     if not ok:
         run.find("static:assumptions", "Print Assumptions file for C12/Props does not compile", {}, concrete=False)
     run.not_proved += [
-        "every *sampled* outcome has non-zero Born probability: not proved (needs the stabiliser-formalism link tableau -> amplitudes); "
-        "covered by rowsum_ok / determined_spec_stabilises_partial for the reference procedure and by tests against the state vector",
-        "tableau_inv under measurement (M): only the update rules are proved (tableau_inv_rules)",
+        "Born support of a whole sampled bitstring: proved per measured qubit (determined_support: the other value has amplitude 0; "
+        "random_outcome_half: both values carry equal weight) under the premise that the scratch row is (-1)^o Z_q resp. that the tableau's "
+        "stabilisers stabilise the state; the post-measurement state (projection) and the fact that the selected product equals +-Z_q "
+        "(symplectic-basis completeness) are not formalised; covered by tests against the state vector",
         "uniqueness of the state stabilised by n independent commuting generators (standard; not formalised)",
+        "non-vanishing of the state vector of a circuit (premise `nonzero` of determined_spec_stabilises)",
         "tableau -> circuit (AG04 / BM20): test only",
-        "flag_sound / flag_complete_K / controlled_flag_ok / cr_flag_ok / rowsum_ok and determined_outcome_ok of the engine as written: REFUTED (see refuted_on_current_tree)"]
+        "flag_sound / flag_complete_K / controlled_flag_ok / cr_flag_ok: REFUTED (open findings)"]
 
 
 def sec_matrices(run):
@@ -1823,8 +1923,10 @@ def replay(run, data):
         sec_flags(run)
     elif kind == "flag_exact":
         sec_flag_exact(run)
-    elif kind == "collapse":
-        sec_collapse(run)
+    elif kind in ("collapse", "collapse_exact"):
+        sec_collapse(run, random.Random(data.get("seed", 0)))
+    elif kind == "repeated":
+        sec_repeated(run)
     elif kind in ("stim", "stim_controlled", "stim_idle"):
         sec_stim(run, random.Random(data.get("seed", 0)))
     elif kind == "reject":
